@@ -514,6 +514,39 @@ class StepClock(object):
 
 
 # ---------------------------------------------------------------------------------------------
+# CPU-time backstop for hangs the step clock cannot see (a loop inside C code, e.g. a regular
+# expression that backtracks exponentially): ITIMER_VIRTUAL counts this process's own user CPU time,
+# so it does not depend on machine load.  The limit (6 s + 1 s per million budgeted line events; the
+# step clock itself fires after about 0.3 s per million) is two to three orders of magnitude above
+# the cost of the runs the generators produce.
+# ---------------------------------------------------------------------------------------------
+
+CPU_LIMIT_S = float(os.environ.get("VERIF_CPU_LIMIT", "6"))
+
+
+@contextlib.contextmanager
+def cpu_limit(seconds):
+    import signal
+    if seconds is None or not hasattr(signal, "setitimer"):
+        yield
+        return
+
+    def on_timer(signum, frame):
+        raise StepBudgetExceeded("cpu-time limit of %.0fs" % seconds)
+    try:
+        old = signal.signal(signal.SIGVTALRM, on_timer)
+    except ValueError:      # not in the main thread
+        yield
+        return
+    signal.setitimer(signal.ITIMER_VIRTUAL, seconds)
+    try:
+        yield
+    finally:
+        signal.setitimer(signal.ITIMER_VIRTUAL, 0)
+        signal.signal(signal.SIGVTALRM, old)
+
+
+# ---------------------------------------------------------------------------------------------
 # process boundary
 # ---------------------------------------------------------------------------------------------
 
@@ -571,7 +604,7 @@ class SimWorld(object):
         with _Seams(self.fs):
             try:
                 if budget is not None:
-                    with self.clock.running(budget):
+                    with cpu_limit(CPU_LIMIT_S + budget / 1.0e6), self.clock.running(budget):
                         return fn(*args, **kw), None
                 return fn(*args, **kw), None
             except StepBudgetExceeded as e:
@@ -595,7 +628,7 @@ class SimWorld(object):
             with _Seams(self.fs), contextlib.redirect_stdout(out), contextlib.redirect_stderr(err):
                 try:
                     if budget is not None:
-                        with self.clock.running(budget):
+                        with cpu_limit(CPU_LIMIT_S + budget / 1.0e6), self.clock.running(budget):
                             mod.main(mod.parse_arguments())
                     else:
                         mod.main(mod.parse_arguments())
